@@ -1,4 +1,5 @@
 import PynguinModel.Lemmas.SetCoverAbort
+import PynguinModel.Lemmas.AssertFilter
 /-!
 # C21 — Kept assertions hold on the original module and preserve mutant kills
 
@@ -18,8 +19,14 @@ Property theorems only (model: `Model/SetCover.lean`, helper lemmas: `Lemmas/Set
   an assertion that this mutant violated (at its original position) is still on the test;
 * `_abort_after_first_timeout` does not change the outcome of the pass.
 
-The part of C21 about re-executing kept assertions on the *unmutated module* is a statement about
-CPython executions; it is checked by the history runs of `harness/c21.py`, not proved here.
+* filtering (`AssertionGenerator.__remove_non_holding_assertions`, model `Model/AssertFilter.lean`):
+  from every statement exactly the assertions reported failed or errored by the filtering execution
+  are removed (by identity through the position snapshot), order preserved — no reported assertion
+  stays, no other assertion goes; a two-pass positional deletion does not have this property.
+
+That an assertion which *passed* the filtering executions holds again on the next execution of the
+unmutated module is a statement about CPython executions; it is checked by the history runs of
+`harness/c21.py`, not proved here.
 -/
 namespace PynguinModel.SetCover
 
@@ -366,3 +373,53 @@ example :
     = some ([[[⟨10, false⟩]]], some (1, 1)) := by decide
 
 end PynguinModel.SetCover
+
+/-! ### `AssertionGenerator.__remove_non_holding_assertions` (first clause of C21) -/
+namespace PynguinModel.AssertFilter
+open PynguinModel.SetCover
+
+/-- "reported as not holding": position `i` of statement `idx` is in `trace.failed` or `trace.error`. -/
+def Reported (t : VTrace) (idx i : Nat) : Prop := i ∈ dictGet t.failed idx ∨ i ∈ dictGet t.error idx
+
+/-- **One statement**: with pairwise distinct assertions and a trace that speaks about existing
+positions the loop ends normally (no `KeyError`/`ValueError`), keeps a sublist (order preserved), and
+an assertion is kept iff its position was not reported — failed and errored positions alike, in
+whatever order they were reported. -/
+theorem C21_nonholding_stmt_exact {α} [DecidableEq α] (st : List α) (t : VTrace) (idx : Nat)
+    (hs : st.Nodup) (hr : ∀ p, Reported t idx p → p < st.length) :
+    ∃ kept, removeStmt st (toDelete t idx) = some kept ∧ kept.Sublist st ∧
+      ∀ i (h : i < st.length), st[i] ∈ kept ↔ ¬ Reported t idx i := by
+  obtain ⟨kept, h1, h2, h3⟩ := removeStmt_spec st hs (toDelete t idx) (nodup_toDelete t idx)
+    (fun p hp => hr p ((mem_toDelete t idx p).1 hp))
+  exact ⟨kept, h1, h2, fun i hi => by rw [h3 i hi, mem_toDelete]; rfl⟩
+
+/-- **The whole test**: `__remove_non_holding_assertions(test, result)` filters every statement by
+the positions reported for that statement and touches nothing else. -/
+theorem C21_nonholding_removed_exactly {α} [DecidableEq α] (test : List (List α)) (t : VTrace)
+    (hs : ∀ st ∈ test, st.Nodup)
+    (hr : ∀ k (h : k < test.length) p, Reported t k p → p < test[k].length) :
+    ∃ out, removeNonHolding test t = some out ∧ out.length = test.length ∧
+      ∀ k (h : k < test.length) (h' : k < out.length), out[k].Sublist test[k] ∧
+        ∀ i (hi : i < test[k].length), test[k][i] ∈ out[k] ↔ ¬ Reported t k i := by
+  obtain ⟨out, h1, h2, h3⟩ := removeNonHoldingFrom_spec t test 0 hs
+    (fun k hk p hp => hr k hk p (by rw [Nat.zero_add] at hp; exact (mem_toDelete t k p).1 hp))
+  refine ⟨out, h1, h2, fun k hk hk' => ?_⟩
+  obtain ⟨q1, q2⟩ := h3 k hk hk'
+  refine ⟨q1, fun i hi => ?_⟩
+  rw [q2 i hi, Nat.zero_add, mem_toDelete]
+  rfl
+
+/-- hypotheses satisfiable, non-trivially: a failed and an errored assertion on the same statement,
+the errored one behind the failed one, an untouched neighbour statement -/
+example : removeNonHolding [[7], [10, 11, 12, 13], [20]] ⟨[(1, [0])], [(1, [2]), (2, [])]⟩
+    = some [[7], [11, 13], [20]] := by decide
+
+/-- Deleting by position in two passes (failed positions, then errored positions) is **not** the
+same: after the first pass the errored position is stale, the errored assertion `12` stays and the
+holding assertion `13` is deleted; the real loop keeps exactly `[11, 13]`. -/
+theorem C21_nonholding_two_pass_cex :
+    twoPassStmt [10, 11, 12, 13] ⟨[(1, [0])], [(1, [2])]⟩ 1 = some [11, 12] ∧
+    removeStmt [10, 11, 12, 13] (toDelete ⟨[(1, [0])], [(1, [2])]⟩ 1) = some [11, 13] ∧
+    twoPassStmt [10, 11, 12] ⟨[(1, [0])], [(1, [2])]⟩ 1 = none := by decide
+
+end PynguinModel.AssertFilter
